@@ -125,6 +125,12 @@ class DAGAnalyzer(ASTTemplate):
     def create_dag(cls, ast: Start) -> "DAGAnalyzer":
         dag = cls()
         dag.visit(ast)
+        # A name assigned twice is rejected before the graph is built: load_edges links every reader
+        # to the textually last producer, so with two producers the graph - and the error reported
+        # for such a script (cycle 1-3-2-3 or redefinition 1-2-2) - would depend on the written order.
+        dag.check_overwriting(
+            [node for node in ast.children if isinstance(node, (Assignment, PersistentAssignment))]
+        )
         dag.load_vertex()
         dag.load_edges()
         try:
